@@ -123,7 +123,11 @@ func parseNumber(buf []byte) (id, val uint64) {
 		floatTag |= uint64(FloatOverflowedInteger)
 	}
 
-	if pos > 1 && buf[0] == '0' && isNumberRune[buf[1]]&isFloatOnlyFlag == 0 {
+	digits := buf[:pos]
+	if digits[0] == '-' {
+		digits = digits[1:]
+	}
+	if len(digits) > 1 && digits[0] == '0' && isNumberRune[digits[1]]&isFloatOnlyFlag == 0 {
 		// Float can only have have a leading 0 when followed by a period.
 		return 0, 0
 	}
